@@ -37,12 +37,35 @@ def decide(label, mode, kind, name, tok="p2"):
         label = re.sub(r"\b%s\b" % tok, "p2", label)
     if label.startswith("p2 matches ") or label.startswith("p2.0 matches "):
         pat = label.split(" matches ", 1)[1]
+        if kind not in ("StartTag", "EndTag"):
+            # a non-tag token class: Comment, Eof, NullCharacter, Characters(NotSplit|Whitespace|NotWhitespace)
+            for alt in _split_alts(pat):
+                if alt.startswith("Tag("):
+                    continue
+                if alt in ("Eof", "NullCharacter"):
+                    if alt == kind:
+                        return True
+                elif alt.startswith("Comment("):
+                    if kind == "Comment":
+                        return True
+                elif alt.startswith("Characters("):
+                    if kind.startswith("Characters("):
+                        inner = alt[len("Characters("):-1].split(",")[0]
+                        if inner in ("_", "..", kind[len("Characters("):-1]):
+                            return True
+                elif alt in ("_",):
+                    return True
+                else:
+                    raise ValueError("unparsed token pattern: " + label)
+            return False
         alts = TAG_ALT.findall(pat)
         if not alts:
             if pat.startswith("Tag("):
                 raise ValueError("unparsed tag pattern: " + label)
             return False  # Characters / Comment / Eof / NullCharacter never match a tag token
         return any(k == kind and (n == "" or n == name) for k, n in alts)
+    if kind not in ("StartTag", "EndTag") and label.startswith("p2.0."):
+        return None
     m = re.fullmatch(r"\(p2\.0\.name (==|!=) atom:([\w-]+)\)", label)
     if m:
         return (name == m.group(2)) == (m.group(1) == "==")
@@ -55,6 +78,25 @@ def decide(label, mode, kind, name, tok="p2"):
     if m:
         return (kind == m.group(2)) == (m.group(1) == "==")
     return None
+
+
+def _split_alts(pat):
+    out, depth, cur = [], 0, ""
+    for ch in pat:
+        if ch in "({[":
+            depth += 1
+        elif ch in ")}]":
+            depth -= 1
+        if ch == "|" and depth == 0:
+            out.append(cur.strip())
+            cur = ""
+        else:
+            cur += ch
+    out.append(cur.strip())
+    return out
+
+
+NON_TAG_KINDS = ["Comment", "Eof", "NullCharacter", "Characters(NotSplit)", "Characters(Whitespace)", "Characters(NotWhitespace)"]
 
 
 def names_in(cells):
